@@ -967,6 +967,11 @@ class Process:
         """
         self._raise_if_pid_reused()
         ppid_map = _ppid_map()
+        # A process is never its own child or descendant. Its PID can
+        # show up below itself if it is listed as its own parent (PID 0
+        # on some platforms) or if PIDs are reused while the map is
+        # built, which may result in a cyclic "tree".
+        ppid_map.pop(self.pid, None)
         ret = []
         if not recursive:
             for pid, ppid in ppid_map.items():
